@@ -268,6 +268,38 @@ module M = struct
     go [] 0 l
 end
 
+(* ---------------------------------------------------------------- TFleet (timed Fleet edge, C14) *)
+module TF = struct
+  open StoreB
+  open TFleet
+  let state_str b =
+    let s = b.fs in
+    Printf.sprintf "%s|%s|%s|%s|%s|%s|%d|%s|%s"
+      (ints (L.map int_of_nat s.transit)) (ints (L.map int_of_nat s.ready))
+      (B.toks s.putq) (B.toks s.putres) (B.toks s.getq)
+      (String.concat "," (L.map (fun (r, it) -> Printf.sprintf "%d:%d" (int_of_nat r.r_tok) (int_of_nat it)) s.getres))
+      (int_of_z b.fclock) (ints (L.map int_of_nat b.intransit))
+      (String.concat ";" (L.map (fun (bt, d) -> Printf.sprintf "%s@%d" (ints (L.map int_of_nat bt)) (int_of_z d)) b.trips))
+  let case hdr ops =
+    (* hdr: CASE tfleet <cap> <delay> <transit> *)
+    let i n = int_of_string (L.nth hdr n) in
+    let b = ref (finit (nat_of_int (i 2)) (z_of_int (i 3)) (z_of_int (i 4))) in
+    let dead = ref false in
+    L.iter (fun w ->
+      if !dead then print_string "ILLEGAL\n" else
+      let i n = int_of_string (L.nth w n) in
+      let o = match L.hd w with
+        | "LOAD" -> FLoad (nat_of_int (i 1), nat_of_int (i 2), nat_of_int (i 3))
+        | "ACTIVATE" -> FActivate
+        | "ARRIVE" -> FArrive
+        | "IDLE" -> FIdle (z_of_int (i 1))
+        | _ -> FApi (B.op_of w) in
+      (match fstep !b o with
+       | Some ((b', r), ts) -> b := b';
+           Printf.printf "%s|%s|%s\n" (B.out_str r) (ints (L.map int_of_nat ts)) (state_str b')
+       | None -> dead := true; print_string "ILLEGAL\n")) ops
+end
+
 let () =
   let cur = ref None and ops = ref [] in
   let flush () =
@@ -282,6 +314,7 @@ let () =
           | "storeq" -> Q.case hdr (L.rev !ops)
           | "factory" -> F.case hdr (L.rev !ops)
           | "monitor" -> M.case hdr (L.rev !ops)
+          | "tfleet" -> TF.case hdr (L.rev !ops)
           | m -> failwith ("model " ^ m));
          print_string "END\n");
     cur := None; ops := [] in
